@@ -259,6 +259,12 @@ func ruleC13Tables(cx *Ctx) {
 			if stripConv(v) == stripConv(level) {
 				return true
 			}
+			// the same level read twice from a field of a by-value parameter (sweep.level): two loads, one term
+			if _, isLoad := stripConv(v).(*ssa.UnOp); isLoad {
+				if newTermBuilder().of(stripConv(v)).String() == newTermBuilder().of(stripConv(level)).String() {
+					return true
+				}
+			}
 			// the overflow level: len(table) - 1
 			if b, ok := stripConv(v).(*ssa.BinOp); ok && b.Op == token.SUB {
 				if c, isC := constInt(b.Y); isC && c == 1 {
